@@ -981,3 +981,264 @@ def run_hook_pair(storage_type="multifilesystem", delay=0.25):
         for f in glob.glob(os.path.join(tmpd, tag + ".*")):
             with contextlib.suppress(OSError):
                 os.remove(f)
+
+
+# ------------------------------------------------------------------------------- contended storage lock, time passing
+# While requests wait for the storage lock TIME PASSES, and how much is a choice of the schedule: every timed wait,
+# sleep or deadline in the lock code may expire before the holder leaves.  The lock modules get a clock that runs
+# 1/scale times faster than the real one (their `threading` / `time` names -- whatever they are bound to -- are replaced
+# by stand-ins that scale time-outs and sleeps and report the scaled time), so that a request parked inside its critical
+# section for a fraction of a second has been there for minutes as far as the lock code can tell.  Code without timed
+# waits (the unchanged tree) behaves exactly as before.
+_LOCK_MODULES = ("radicale.pathutils", "radicale.storage", "radicale.storage.multifilesystem",
+                 "radicale.storage.multifilesystem.base", "radicale.storage.multifilesystem.lock",
+                 "radicale.storage.multifilesystem_nolock")
+_FAST = {"scale": 1.0, "t0": time.monotonic(), "expired": 0}
+
+
+def _short(timeout):
+    """A time-out / sleep of the lock code in real seconds."""
+    return max(timeout * _FAST["scale"], 0.0)
+
+
+def _fast_now(real_fn):
+    def now():
+        base = _FAST.setdefault(real_fn.__name__, real_fn())
+        return base + (real_fn() - base) / _FAST["scale"]
+    now.__name__ = real_fn.__name__
+    return now
+
+
+class _FastLock:
+    """threading.Lock with scaled time-outs (threading.Lock is a factory function, not a class)."""
+    _factory = staticmethod(threading.Lock)
+
+    def __init__(self):
+        self._real = self._factory()
+
+    def acquire(self, blocking=True, timeout=-1):
+        if blocking and timeout is not None and timeout > 0:
+            got = self._real.acquire(True, max(_short(timeout), 1e-4))
+            if not got:
+                _FAST["expired"] += 1
+            return got
+        return self._real.acquire(blocking, timeout)
+
+    def release(self):
+        self._real.release()
+
+    def locked(self):
+        return self._real.locked()
+
+    __enter__ = acquire
+
+    def __exit__(self, *a):
+        self._real.release()
+
+    def __getattr__(self, name):            # RLock: _release_save / _acquire_restore / _is_owned (used by Condition)
+        return getattr(self._real, name)
+
+
+class _FastRLock(_FastLock):
+    _factory = staticmethod(threading.RLock)
+
+
+class _FastCondition(threading.Condition):
+    def wait(self, timeout=None):
+        if timeout is None:
+            return super().wait()
+        got = super().wait(_short(timeout))
+        if not got:
+            _FAST["expired"] += 1
+        return got
+
+    def wait_for(self, predicate, timeout=None):
+        if timeout is None:
+            return super().wait_for(predicate)
+        end = time.monotonic() + _short(timeout)
+        result = predicate()
+        while not result:
+            left = end - time.monotonic()
+            if left <= 0:
+                _FAST["expired"] += 1
+                break
+            threading.Condition.wait(self, left)
+            result = predicate()
+        return result
+
+
+class _FastEvent(threading.Event):
+    def wait(self, timeout=None):
+        return super().wait(None if timeout is None else _short(timeout))
+
+
+class _FastSemaphore(threading.Semaphore):
+    def acquire(self, blocking=True, timeout=None):
+        return super().acquire(blocking, None if timeout is None else _short(timeout))
+
+
+class _FastBoundedSemaphore(threading.BoundedSemaphore):
+    def acquire(self, blocking=True, timeout=None):
+        return super().acquire(blocking, None if timeout is None else _short(timeout))
+
+
+class _FastTimer(threading.Timer):
+    def __init__(self, interval, *a, **k):
+        super().__init__(_short(interval), *a, **k)
+
+
+class _ModuleProxy:
+    def __init__(self, real, over):
+        self.__dict__["_real"] = real
+        self.__dict__.update(over)
+
+    def __getattr__(self, name):
+        return getattr(self.__dict__["_real"], name)
+
+
+def _fast_sleep(seconds):
+    time.sleep(_short(seconds))
+
+
+_FAST_THREADING = {"Lock": _FastLock, "RLock": _FastRLock, "Condition": _FastCondition, "Event": _FastEvent,
+                   "Semaphore": _FastSemaphore, "BoundedSemaphore": _FastBoundedSemaphore, "Timer": _FastTimer}
+_FAST_TIME = dict(sleep=_fast_sleep, **{n: _fast_now(getattr(time, n)) for n in ("monotonic", "time", "perf_counter")})
+_FAST_TIME.update({n + "_ns": (lambda f: (lambda: int(f() * 1e9)))(_FAST_TIME[n]) for n in ("monotonic", "time", "perf_counter")})
+
+
+@contextlib.contextmanager
+def fast_lock_clock(scale):
+    """Inside: the lock modules of Radicale see a clock that runs 1/scale times faster (objects they create meanwhile
+    -- the storage lock of a new Application -- keep it for their life time)."""
+    import importlib
+    table = {id(threading): _ModuleProxy(threading, _FAST_THREADING), id(time): _ModuleProxy(time, _FAST_TIME)}
+    for n, v in _FAST_THREADING.items():
+        table[id(getattr(threading, n))] = v
+    for n, v in _FAST_TIME.items():
+        table[id(getattr(time, n))] = v
+    saved = []
+    old = _FAST["scale"]
+    _FAST["scale"] = scale
+    try:
+        for mname in _LOCK_MODULES:
+            try:
+                mod = importlib.import_module(mname)
+            except ImportError:
+                continue
+            for name, val in list(vars(mod).items()):
+                if not name.startswith("__") and id(val) in table:
+                    saved.append((mod, name, val))
+                    setattr(mod, name, table[id(val)])
+        yield
+    finally:
+        for mod, name, val in saved:
+            setattr(mod, name, val)
+        _FAST["scale"] = old
+
+
+def run_contended_lock(world, pre, setup, holder, park_mode, waiters, etags, storage_type="multifilesystem_nolock",
+                       hold=0.15, scale=0.001, dwell=0.02):
+    """One Application.  `holder` (ui, request) is parked INSIDE its first critical section of mode `park_mode`; the
+    `waiters` (list of (ui, request)) arrive meanwhile, one thread each, and queue at the storage lock; the holder stays
+    for `hold` seconds = hold/scale seconds on the clock of the lock code; then it goes on and everybody finishes.
+    A request that enters a section it had to queue for dwells there `dwell` seconds before its handler goes on.
+    Monitor at every entry: any number of readers or exactly one writer.
+    -> dict(setup, resps=[holder, waiters...], store, overlaps=[(who, mode, {other: mode})], events, parked, queued, expired)"""
+    set_policy(world)
+    with fast_lock_clock(scale):
+        return _run_contended_lock(pre, setup, holder, park_mode, waiters, etags, storage_type, hold, dwell,
+                                   server_conf(world, pre, storage_type))
+
+
+def _run_contended_lock(pre, setup, holder, park_mode, waiters, etags, storage_type, hold, dwell, conf):
+    srv = impl.Server(conf=conf)
+    try:
+        runner = xh.Runner(etags)
+        outs = [runner.one(srv, ui, r) for ui, r in setup]
+        st = srv.application._storage
+        orig = st.acquire_lock
+        n = 1 + len(waiters)
+        reqs = [holder] + list(waiters)
+        guard = threading.Lock()
+        inside = {}
+        asking = {}
+        events, overlaps = [], []
+        parked_ev, resume = threading.Event(), threading.Event()
+        index = {}
+        res = [None] * n
+        errors = [None] * n
+        expired0 = _FAST["expired"]
+
+        @contextlib.contextmanager
+        def wrapped(mode, user="", *a, **k):
+            i = index.get(threading.get_ident())
+            if i is None:
+                with orig(mode, user, *a, **k):
+                    yield
+                return
+            with guard:
+                contended = bool(inside)
+                asking[i] = mode
+                events.append((i, "asks " + mode, dict(inside)))
+            with orig(mode, user, *a, **k):
+                with guard:
+                    asking.pop(i, None)
+                    others = {j: m for j, m in inside.items() if j != i}
+                    events.append((i, "enters " + mode, others))
+                    if (mode == "w" and others) or "w" in others.values():
+                        overlaps.append((i, mode, others))
+                    inside[i] = mode
+                try:
+                    if i == 0 and mode == park_mode and not parked_ev.is_set():
+                        parked_ev.set()
+                        resume.wait(30)
+                    elif contended:
+                        time.sleep(dwell)
+                    yield
+                finally:
+                    with guard:
+                        inside.pop(i, None)
+                        events.append((i, "leaves", {}))
+
+        def body(i):
+            index[threading.get_ident()] = i
+            try:
+                res[i] = xh.Runner(etags).one(srv, reqs[i][0], reqs[i][1])
+            except BaseException as e:  # noqa
+                errors[i] = repr(e)
+
+        st.acquire_lock = wrapped
+        try:
+            threads = [threading.Thread(target=body, args=(i,), daemon=True) for i in range(n)]
+            threads[0].start()
+            parked = parked_ev.wait(3)
+            queued = 0
+            if parked:
+                for t in threads[1:]:
+                    t.start()
+                t_end = time.monotonic() + 3
+                while time.monotonic() < t_end:          # until every waiter queues at the lock (or has finished)
+                    with guard:
+                        queued = len([i for i in asking if i != 0])
+                        settled = queued + len([i for i in range(1, n) if not threads[i].is_alive()])
+                    if settled >= n - 1:
+                        break
+                    time.sleep(0.005)
+                time.sleep(hold)
+                with guard:
+                    queued = len([i for i in asking if i != 0])
+            resume.set()
+            if not parked:
+                for t in threads[1:]:
+                    t.start()
+            for t in threads:
+                t.join(30)
+            hung = [i for i, t in enumerate(threads) if t.is_alive()]
+        finally:
+            resume.set()
+            st.acquire_lock = orig
+        store = xh.dump_store(srv.folder, etags)
+        return dict(setup=outs, resps=res, store=store, overlaps=overlaps, events=events, parked=parked, queued=queued,
+                    errors=errors, hung=hung, expired=_FAST["expired"] - expired0)
+    finally:
+        srv.close()
